@@ -19,7 +19,7 @@ META = {
             "W[i], Index, Prev, N, First, startxref, table offsets and generations, object numbers). The Adversary then takes up to MaxMut "
             "steps: flip a byte, truncate, splice a grammar token, set a number to -1/0/1/2^31-1/2^32/2^63-1/10^18/2^64-1, replace a hex "
             "string, nest strings/arrays/dictionaries 3-150 deep (amplified x30/x300 by the harness), make Prev or indirect-Length cycles, "
-            "drop a keyword, swap two entries. The same actions run on legal inputs of the other entry points (content streams, ToUnicode "
+            "drop a keyword, swap two entries, repeat a marker line up to 3x10^5 times, pad the tail, insert a key the library looks up (vocabulary harvested from its sources) with an adversarial value. After the parse comes the use: the loaded document / parsed CMap / decoded content is driven through the public calls (stream decompression, page content decoding, font encodings, text extraction; CMap lookups at the boundary codes of the mutated program's own ranges) under the same guard. The same actions run on legal inputs of the other entry points (content streams, ToUnicode "
             "CMap programs, ASCII85/LZW/Flate payloads with predictor parameters, object streams, cross-reference streams, text strings, "
             "PNG rows, one-byte encodings) and on real files (repository assets, files saved by lopdf). TLC evaluates its StrictReader on "
             "every emitted input (a TLC evaluation error = the specification is not total). Each input is given to lopdf in a child "
@@ -37,7 +37,7 @@ META = {
 }
 
 ACTIONS = ["FlipByte", "Truncate", "SpliceToken", "SetNumber", "SetHex", "NestDeep", "MakeCycle", "DropKeyword", "SwapEntry",
-           "RepeatToken", "PadTail"]
+           "RepeatToken", "PadTail", "InsertKey"]
 GUARDS = ["prev", "len", "bracket", "nest", "search", "window"]
 GUARD_ACTIONS = {"prev": ["StepPrevFirst", "StepPrevIter"], "len": ["StepLen"], "bracket": ["StepBracket"], "nest": ["StepNest"],
                  "search": ["StepSearch"], "window": ["StepSearch"]}
@@ -100,6 +100,34 @@ def count_huge(d):
     return False
 
 
+LOOKUP = re.compile(r'\b(?:get|get_mut|get_deref|has|remove|get_dict_in_dict|get_abbr|get_object_in_dict)\s*\(\s*(?:[A-Za-z_&.]+\s*,\s*)?b"([A-Za-z][A-Za-z0-9]{0,30})"')
+NAMELIT = re.compile(r'b"([A-Z][A-Za-z0-9]{0,30})"')
+ABBR = re.compile(r'get_abbr\s*\(\s*b"([A-Za-z0-9]+)"\s*,\s*b"([A-Za-z0-9]+)"')
+
+
+def harvest_vocabulary():
+    """the names lopdf itself looks up in dictionaries: every b"Name" literal handed to get / has / get_deref / remove / ...
+    in the sources of the tree under test (VERIF_REPO or /repo), read when the check runs"""
+    names = set()
+    root = os.path.join(vlib.REPO, "src")
+    for dp, _, fs in os.walk(root):
+        for f in fs:
+            if f.endswith(".rs"):
+                text = open(os.path.join(dp, f), encoding="utf-8", errors="replace").read()
+                cut = text.find("#[cfg(test)]\nmod test")
+                if cut > 0:
+                    text = text[:cut]
+                names.update(LOOKUP.findall(text))
+                names.update(NAMELIT.findall(text))          # names handed over through a variable or a table
+                for a, b in ABBR.findall(text):
+                    names.update((a, b))
+    return sorted(names)
+
+
+def value_class(m):
+    return m["a"].split(".", 1)[1] + ":" + bytes(m["v"]).decode("latin-1")[:24]
+
+
 def private_bin(w):
     """The harness binary copied into this run's work directory.  With VERIF_REPO the build lives in a shadow crate under
     .work/ that other runs (mutant evaluation) clean away; the generation phase takes minutes, so the later steps must not
@@ -147,7 +175,15 @@ def run(tier):
     c04 = private_bin(w)
     c04(["seeds", "--seed", seed, "--n", 4 if quick else 10, "--out", seeds])
     run_bin("c02", ["docs", "--seed", seed, "--n", 16 if quick else 48, "--max-objects", 5, "--max-revs", 2, "--out", docs])
-    env = {"SEEDS": seeds, "DOCS": docs}
+    vocab = harvest_vocabulary()
+    if len(vocab) < 40 or "Length" not in vocab or "DecodeParms" not in vocab:
+        raise vlib.ToolError("vocabulary harvest from %s/src looks broken: %d names" % (vlib.REPO, len(vocab)))
+    vpath = os.path.join(w, "vocab.ndjson")
+    write_ndjson(vpath, [{"name": list(v.encode())} for v in vocab])
+    chk.extra["vocabulary_names"] = len(vocab)
+    env = {"SEEDS": seeds, "DOCS": docs, "VOCAB": vpath}
+    cseeds = os.path.join(w, "seeds-cmap.ndjson")
+    write_ndjson(cseeds, [x for x in read_ndjson(seeds) if x["ep"] == "cmap" and x["txt"]])
 
     # ---------------------------------------------------------------- (M) guard models + (G) generation, all in parallel
     jobs = []
@@ -155,9 +191,9 @@ def run(tier):
         jobs.append(("guard-on", g))
         jobs.append(("guard-off", g))
     if quick:
-        jobs += [("producer", i, 30) for i in range(3)] + [("seeds", i, 150) for i in range(2)]
+        jobs += [("producer", i, 30) for i in range(3)] + [("seeds", i, 150) for i in range(2)] + [("cmap", 0, 260)]
     else:
-        jobs += [("producer", i, 400) for i in range(11)] + [("seeds", i, 2200) for i in range(3)]
+        jobs += [("producer", i, 400) for i in range(11)] + [("seeds", i, 2200) for i in range(3)] + [("cmap", i, 2500) for i in range(2)]
 
     def one(job):
         if job[0] == "guard-on":
@@ -166,6 +202,9 @@ def run(tier):
             return tlc("MC_Guards.tla", "MC_Guards_%s_off.cfg" % job[1], workers=2, allow_violation=True, timeout=900,
                        name="guards-%s-off" % job[1])
         mode, i, n = job
+        if mode == "cmap":      # the CMap programs once more on their own: range bounds moved by one are rare events
+            return tlc("Adversary.tla", "Adversary_seeds.cfg", workers=1, simulate=n, depth=9000, env=dict(env, SEEDS=cseeds), timeout=3000,
+                       name="adv-cmap-%d" % i, xmx="3g", seed_override=(seed * 131 + 17 * i + 11) & 0x7FFFFFFF)
         return tlc("Adversary.tla", "Adversary_%s.cfg" % mode, workers=1, simulate=n, depth=9000, env=env, timeout=3000,
                    name="adv-%s-%d" % (mode, i), xmx="3g", seed_override=(seed * 131 + 17 * i + (0 if mode == "producer" else 7)) & 0x7FFFFFFF)
 
@@ -230,6 +269,10 @@ def run(tier):
             c["stack_kb"] = 2048
             n += sum((r[3] - (r[1] - r[0] + 1) // max(r[2], 1)) * r[2] for r in reps)
         c.update(limits(n))
+        if m.get("use"):
+            c["use"] = m["use"]
+        if m.get("probes"):
+            c["probes"] = m["probes"]
         if ep == "load" and m.get("dig"):
             c["want_dig"] = True
         cases.append(c)
@@ -239,6 +282,7 @@ def run(tier):
     for ri, r in enumerate(records):
         src = "tlc:producer" if r["_mode"] == "producer" else "tlc:seed:" + r["tag"]
         base = {"src": src, "muts": r["muts"], "trivial": r["round"] == 0, "rdok": r["rdok"], "neutral": r["neutral"], "rec": ri, "rep": "",
+                "use": r.get("use") or [], "probes": r.get("probes") or [],
                 "wzero": (w_zero(r["dict"]) and count_huge(r["dict"])) or (r["ep"] == "file" and bool(W000.search(bytes(r["bytes"])))),
                 "nest": []}
         eps = ["load", "incload"] if r["ep"] == "file" else [r["ep"]]
@@ -262,6 +306,51 @@ def run(tier):
                         if d * amp >= 500:
                             nest = [kind]
                     add(ep, amplify(r["bytes"], r["nests"], amp), r["dict"], dict(base, amp=amp, nest=nest, neutral=False))
+    # key insertion, written out: where TLC inserted one key of the vocabulary, every other key is tried in its place
+    # (one record per entry-point tag and value, so that every key meets every kind of dictionary and value)
+    strata = {}
+    order_r = list(range(len(records)))
+    rng.shuffle(order_r)
+    for ri in order_r:
+        r = records[ri]
+        im = [m for m in r["muts"] if m["k"] == "InsertKey" and m["a"] != "noop"]
+        if len(im) != 1 or r.get("reps") or r.get("nests") or (im[0]["a"].startswith("bytes") and len(r.get("ins") or []) != 1):
+            continue
+        k = (r["ep"], r["tag"], value_class(im[0]))
+        if k not in strata:
+            strata[k] = ri
+    nexp = 0
+    exp_budget = 12000 if quick else 250000
+    for k in sorted(strata, key=lambda k: hashlib.sha1(repr((seed, k)).encode()).hexdigest()):
+        if nexp >= exp_budget:
+            break
+        ri = strata[k]
+        r = records[ri]
+        im = [m for m in r["muts"] if m["k"] == "InsertKey" and m["a"] != "noop"][0]
+        src = ("tlc:producer" if r["_mode"] == "producer" else "tlc:seed:" + r["tag"]) + "+keys"
+        for name in vocab:
+            key = name.encode()
+            if list(key) == im["nm"]:
+                continue
+            muts = [dict(m, nm=list(key)) if m is im else m for m in r["muts"]]
+            if im["a"].startswith("bytes"):
+                s0, e0 = r["ins"][0]
+                data = r["bytes"][:s0 - 1] + list(key) + r["bytes"][e0:]
+                d = r["dict"]
+            else:
+                data = r["bytes"]
+                d = json.loads(json.dumps(r["dict"]))
+                i, j = (im["idx"], 0) if im["idx"] < 1000 else divmod(im["idx"], 1000)
+                if j == 0:
+                    d[i - 1][0] = list(key)
+                else:
+                    d[i - 1][1]["v"][j - 1][0] = list(key)
+            m = {"src": src, "muts": muts, "trivial": False, "rdok": False, "neutral": False, "rec": ri, "rep": "",
+                 "use": r.get("use") or [], "probes": [], "wzero": False, "nest": []}
+            for ep in (["load"] if r["ep"] == "file" else [r["ep"]]):
+                add(ep, data, d, m)
+                nexp += 1
+    chk.extra["key_insertions_written_out"] = nexp
     ntlc = len(cases)
 
     # budget: of the inputs the classifier predicts to end in an already listed signature that costs wall-clock time (a hang
@@ -365,16 +454,18 @@ def run(tier):
                        "loc": (o.get("loc") or "").rsplit(":", 1)[0], "mcl": o.get("mcl") or "",
                        "refused": digits(o.get("refused")), "peak": digits(o.get("peak")), "len": m["n"], "dict": c.get("dict") or [],
                        "bytes": list(big_number_windows(bytes.fromhex(c["hex"]))) if need_bytes else [],
-                       "nest": m["nest"], "rep": m.get("rep", ""), "wzero": bool(m["wzero"])})
+                       "nest": m["nest"], "rep": m.get("rep", ""), "wzero": bool(m["wzero"]),
+                       "insx": ins_keys(m["muts"], o.get("refused"), c.get("dict"))[0],
+                       "insb": ins_keys(m["muts"], o.get("refused"), c.get("dict"))[1]})
     ctl = [
         {"id": -1, "group": "file", "ep": "load", "kind": "panic", "loc": "lopdf:injected.rs", "mcl": "add-overflow", "refused": [], "peak": [], "len": 100,
-         "dict": [], "bytes": [], "nest": [], "rep": "", "wzero": False},
+         "dict": [], "bytes": [], "nest": [], "rep": "", "wzero": False, "insx": "", "insb": ""},
         {"id": -2, "group": "filter", "ep": "filter", "kind": "err", "loc": "", "mcl": "", "refused": digits(1 << 32), "peak": [], "len": 100,
-         "dict": [], "bytes": [], "nest": [], "rep": "", "wzero": False},
+         "dict": [], "bytes": [], "nest": [], "rep": "", "wzero": False, "insx": "", "insb": ""},
         {"id": -3, "group": "filter", "ep": "filter", "kind": "err", "loc": "", "mcl": "", "refused": digits((1 << 63) - 1), "peak": digits(5000), "len": 100,
-         "dict": [], "bytes": [], "nest": [], "rep": "", "wzero": False},
+         "dict": [], "bytes": [], "nest": [], "rep": "", "wzero": False, "insx": "", "insb": ""},
         {"id": -4, "group": "file", "ep": "load", "kind": "hang", "loc": "", "mcl": "", "refused": [], "peak": [], "len": 100,
-         "dict": [], "bytes": [], "nest": [], "rep": "", "wzero": False},
+         "dict": [], "bytes": [], "nest": [], "rep": "", "wzero": False, "insx": "", "insb": ""},
     ]
     verdicts, s2, t2 = vlib.validate_trace("Trace_Adversary.tla", "Trace_Adversary.cfg", judged + ctl, "c04judge",
                                            boundaries=list(range(len(judged) + len(ctl))), chunks=1 if quick else 8)
@@ -449,6 +540,40 @@ def run(tier):
         chk.sample({"entry_point": c["ep"], "source": m["src"], "mutations": fmt_muts(m["muts"]), "outcome": outs[i]["kind"],
                     "msg": outs[i].get("msg", ""), "input_ascii": bytes.fromhex(c["hex"][:600]).decode("latin-1")})
     return chk.finish()
+
+
+CLASSIFIER_NAMES = {"W", "Size", "Index", "Length", "Prev", "N", "First", "Columns", "Colors", "Predictor", "BitsPerComponent", "Ppr", "Bpp",
+                    "Width", "H", "Height", "BPC"}
+
+
+def ins_keys(muts, refused, d=None):
+    """(key holding an integer equal to the refused size, first key holding a huge integer) among the keys the classifier has
+    no name of its own for: looked up in the final stream dictionary, else in the log of inserted keys"""
+    exact = big = ""
+    ref = str(int(refused or 0))
+
+    def walk(pairs):
+        nonlocal exact, big
+        for k, v in pairs or []:
+            name = bytes(k).decode("latin-1")
+            if is_int(v) and not v.get("neg") and name not in CLASSIFIER_NAMES:
+                digs = "".join(str(x) for x in v["v"])
+                if digs == ref and not exact:
+                    exact = name
+                if len(digs) >= 10 and not big:
+                    big = name
+            elif isinstance(v, dict) and v.get("k") == "dict":
+                walk(v["v"])
+    walk(d)
+    for m in muts:
+        if m.get("k") == "InsertKey" and isinstance(m.get("nm"), list) and m["a"].endswith(".int"):
+            v = bytes(m["v"]).decode("latin-1")
+            name = bytes(m["nm"]).decode("latin-1")
+            if v == ref and not exact:
+                exact = name
+            if len(v) >= 10 and not v.startswith("-") and not big:
+                big = name
+    return exact, big
 
 
 def fmt_muts(muts):
